@@ -1209,7 +1209,8 @@ func (c *Ctx) sentinelRule(r *Result, rule string) {
 					ui := ref.(ssa.Instruction)
 					cons := c.Name(fn) + "#" + pk + "." + f.Name() + "#" + role
 					// the search result itself must be known >= 0 where it is used
-					if fb.ProveGE0At(fb.lin(call), ui) {
+					// (a search returns -1 or a position: behind `result != -1` it is a position)
+					if fb.ProveGE0At(fb.lin(call), ui) || behindNotMinusOne(fn, call, ui) {
 						r.Hold(rule, cons, c.InstrPos(ui), "the search result is known to be non-negative here")
 					} else {
 						r.Viol(rule, cons, c.InstrPos(ui), "the result of "+pk+"."+f.Name()+" is used as a position/size here although it may be -1 (not found): no dominating test excludes it")
